@@ -398,7 +398,7 @@ def PendingRuns (env : Nat) (σ₁ : Store) (tenv : Nat) (f : Expr) (targs : Lis
   (∃ fv σ₂, Evals σ₁ tenv f (.ok fv) σ₂ ∧
     ((∃ er, EvalsArgs σ₂ tenv targs (.error er) σ' ∧ r = .error er) ∨
      (∃ vs σ₃, EvalsArgs σ₂ tenv targs (.ok vs) σ₃ ∧
-       ((procArity fv = none ∧ r = .error (.nonProcedure, none) ∧ σ' = σ₃) ∨
+       ((procArity fv = none ∧ r = .error (.nonProcedure, f.loc) ∧ σ' = σ₃) ∨
         ((procArity fv).isSome ∧ Applies σ₃ fv vs env r σ')))))
 
 /-- `TailRuns env σ ρ e r σ'`: the running loop (entered from frame `env`), having reached the tail
